@@ -8,7 +8,7 @@
      unlock   by the owner: depth-1; the mutex becomes free at depth 0
    Enter/Leave are observations made by the caller while it believes it holds
    the mutex: they are legal only if it abstractly does.                    *)
-EXTENDS Naturals, FiniteSets
+EXTENDS Naturals, Integers, FiniteSets
 CONSTANTS Threads
 VARIABLES holder,   \* 0 = free, else the owning caller
           depth,    \* recursion depth (1 when held once)
@@ -45,6 +45,9 @@ Lin(t) == /\ ~IsIdle(t) /\ ~pend[t].done
 Ret(t, r) == /\ ~IsIdle(t) /\ pend[t].done /\ pend[t].res = r
              /\ pend' = [pend EXCEPT ![t] = Idle]
              /\ UNCHANGED <<holder, depth, rec>>
+\* n further acquisitions (n > 0) or releases (n < 0) by the owner of a recursive mutex
+Nest(t, n) == /\ rec /\ holder = t /\ IsIdle(t) /\ depth + n >= 1
+              /\ depth' = depth + n /\ UNCHANGED <<holder, rec, pend>>
 \* an observation "I am inside" by t
 Inside(t) == holder = t /\ IsIdle(t)
 
